@@ -1,9 +1,11 @@
 """C11 — comment parsing never aborts, and its diagnostics point at the source."""
 import ast
+import re
 
 from ..core import AnalysisError
 from .. import pyfront as P
 from .. import gsa
+from .. import strfrag
 from .. import pycfg
 from .. import rx
 
@@ -406,6 +408,31 @@ def check(ctx):
         outs = [c for c in P.calls_in(log) if P.src(c.func) == 'self._output.write']
         for o in outs:
             r6.check(lcfg.dominates(inc, lcfg.node_of(o)), 'count before output', mm.rel, o.lineno, 'output written before counting')
+    # what log() writes for a quoted line: the caller's line and column, unmodified (the caret stays inside the quoted text)
+    LG = gsa.summarise(ctx, 'message', 'MessageLogger.log', inline_only=())
+    if 'marker_pos' not in LG.params or 'marker_line' not in LG.params:
+        raise AnalysisError('MessageLogger.log has no marker_pos/marker_line parameters: %s' % LG.params)
+    nq = 0
+    seen_q = set()
+    for e in gsa.find(LG, 'call', r'^self\._output\.write$'):
+        if e.vnode is None or not e.vnode.args:
+            continue
+        for leaf in strfrag.leaves(strfrag.flatten(e.vnode.args[0])):
+            if leaf[0] != 'expr':
+                continue
+            t = gsa._unparse(leaf[1])
+            names = set(n.id for n in ast.walk(leaf[1]) if isinstance(n, ast.Name))
+            if not names & {'marker_line', 'marker_pos'} or t in seen_q:
+                continue
+            seen_q.add(t)
+            nq += 1
+            x = leaf[1]
+            okq = t == 'marker_line' or (isinstance(x, ast.BinOp) and isinstance(x.op, ast.Mult) and
+                                         sorted([gsa._unparse(x.left), gsa._unparse(x.right)]) == ["' '", 'marker_pos'])
+            r5.check(okq, 'log() prints the quoted line and the caret offset as given: %s' % t, mm.rel, e.line,
+                     'log() prints `%s` instead of the marker line / caret column it was given: the quoted text is no longer the source line, or the caret '
+                     'no longer lies within it' % t, detail=t)
+    r5.check(nq >= 2, 'log() prints marker line and caret', mm.rel, log.lineno, 'log() does not print the quoted line with a caret any more (%d fragments)' % nq)
     # who writes the counter / output
     writers = []
     for mod in py.all_modules():
@@ -432,6 +459,22 @@ def check(ctx):
     r6.check(m.imports.get('warn') == ('message', 'warn') and m.imports.get('error') == ('message', 'error') and
              'warn' not in m.functions and 'error' not in m.functions, 'parser diagnostics go through the message log', rel, 1,
              'annotationparser warn/error are not giscanner.message.warn/error')
+    # no diagnostic of the parser is conditional on the display switch: a diagnostic that is skipped is not counted either
+    disp = set(['_enable_warnings'])
+    for mn, mf in py.methods('message', 'MessageLogger').items():
+        if any(isinstance(n, ast.Return) and n.value is not None and P.src(n.value) == 'self._enable_warnings' for n in P.walk_no_nested(mf)):
+            disp.add(mn)
+    drx = re.compile(r'\b(%s)\b' % '|'.join(sorted(re.escape(d) for d in disp)))
+    nd = 0
+    for qual in ['GtkDocCommentBlockParser.' + x for x in sorted(py.methods('annotationparser', 'GtkDocCommentBlockParser'))]:
+        DS = gsa.summarise(ctx, 'annotationparser', qual, inline_only=())
+        for e in gsa.find(DS, 'call', r'^(warn|error)$'):
+            nd += 1
+            dep = sorted(a for a in gsa.atoms(e.cond) if drx.search(a))
+            if dep:
+                r6.fail('%s: diagnostic at line %d independent of the display switch' % (qual, e.line), rel, e.line,
+                        'this diagnostic is only raised when %s: with warnings switched off it is not counted and warnings-as-errors lets the run succeed' % dep)
+    r6.check(nd >= 30, 'parser diagnostics independent of the display switch (%d call sites)' % nd, rel, 1, 'only %d diagnostic call sites found in the parser' % nd, detail=nd)
     # scanner_main: warn_fatal and count > 0 -> fatal
     sm = py.mod('scannermain')
     smf = py.func('scannermain', 'scanner_main')
@@ -494,3 +537,82 @@ def check(ctx):
     for n in pfr:
         a0 = P.src(n.value.args[0])
         r7.check(a0 in ('True', 'False', 'res.success', 'result.success') or a0.endswith('.success'), '_parse_fields propagates success', rel, n.lineno, 'success=%s' % a0)
+
+    # ------------------------------------------------------------------ R8 constant subscripts are in range for every input
+    r8 = ctx.rule('R8', 'constant subscripts on sequences whose length depends on the comment text (str.split / partition / list displays) '
+                  'are in range on every path that evaluates them', floor=4)
+    bounds_rule(ctx, r8, 'annotationparser', 'GtkDocCommentBlockParser', rel)
+
+
+def seq_bounds(n):
+    """(min length, max length or None) of the sequence an expression evaluates to, None when nothing is known"""
+    if isinstance(n, (ast.List, ast.Tuple)) and not any(isinstance(e, ast.Starred) for e in n.elts):
+        return len(n.elts), len(n.elts)
+    if isinstance(n, ast.Call) and isinstance(n.func, ast.Attribute):
+        a = n.func.attr
+        if a in ('split', 'rsplit'):
+            sep = n.args[0] if n.args else next((k.value for k in n.keywords if k.arg == 'sep'), None)
+            mx = n.args[1] if len(n.args) > 1 else next((k.value for k in n.keywords if k.arg == 'maxsplit'), None)
+            hi = mx.value + 1 if isinstance(mx, ast.Constant) and isinstance(mx.value, int) and mx.value >= 0 else None
+            if isinstance(n.func.value, ast.Name) and n.func.value.id == 're':
+                return 1, None
+            if sep is None or (isinstance(sep, ast.Constant) and sep.value is None):
+                return 0, hi            # whitespace splitting drops empty strings: '' and '   ' give []
+            return 1, hi
+        if a in ('partition', 'rpartition'):
+            return 3, 3
+        if a == 'splitlines':
+            return 0, None
+    return None
+
+
+_SAFE = (ast.Expression, ast.Compare, ast.Constant, ast.BoolOp, ast.UnaryOp, ast.BinOp, ast.And, ast.Or, ast.Not, ast.Eq, ast.NotEq, ast.Lt, ast.LtE, ast.Gt,
+         ast.GtE, ast.Add, ast.Sub, ast.USub, ast.In, ast.NotIn, ast.Tuple, ast.List, ast.Load)
+
+
+def _len_atom(a, base, L):
+    """truth of an atom about len(base) (or the truth of base itself) when the length is L; None when the atom says nothing about it"""
+    if a == base:
+        return L > 0
+    key = 'len(%s)' % base
+    if key not in a:
+        return None
+    try:
+        t = ast.parse(a.replace(key, str(L)), mode='eval')
+    except SyntaxError:
+        return None
+    if not all(isinstance(x, _SAFE) for x in ast.walk(t)):
+        return None
+    try:
+        return bool(eval(compile(t, '<atom>', 'eval'), {'__builtins__': {}}, {}))
+    except Exception:
+        return None
+
+
+def bounds_rule(ctx, rule, modname, cname, rel):
+    n_known = 0
+    for mname in sorted(ctx.py.methods(modname, cname)):
+        S = gsa.summarise(ctx, modname, '%s.%s' % (cname, mname), inline_only=(), index=True)
+        for e in gsa.find(S, 'index'):
+            b = seq_bounds(e.vnode)
+            if b is None:
+                continue
+            n_known += 1
+            k = int(e.value)
+            need = k + 1 if k >= 0 else -k
+            lo, hi = b
+            bad = None
+            for L in range(lo, need):
+                val = {}
+                for a in gsa.atoms(e.cond):
+                    v = _len_atom(a, e.target, L)
+                    if v is not None:
+                        val[a] = v
+                if gsa.can_hold(e.cond, val):
+                    bad = L
+                    break
+            rule.check(bad is None, '%s: %s[%d]' % (mname, e.target[-70:], k), rel, e.line,
+                       '%s[%d] is evaluated on a path where the sequence can have %s element(s): IndexError escapes the parser '
+                       '(the sequence has at least %d element(s) and no test on this path requires more)' % (e.target[-90:], k, bad, lo),
+                       detail={'min': lo, 'max': hi, 'index': k})
+    return n_known
